@@ -1234,6 +1234,11 @@ class Interp:
         if mod == 'int' and name == 'to_bytes' and len(args) >= 2:
             order = args[2] if len(args) > 2 else kwargs.get('byteorder', 'big')
             return S(('int2bytes', term(args[0]), term(args[1]), term(order)), 'bytes')
+        if mod == 'dict' and name == 'fromkeys' and 1 <= len(args) <= 2 and isinstance(args[0], (list, tuple)) and is_conc(args[0]):
+            try:
+                return dict.fromkeys(args[0], args[1] if len(args) > 1 else None)
+            except TypeError:
+                raise AnalysisError('dict.fromkeys of unhashable constants')
         if mod == 'collections' and name == 'OrderedDict' and not args:
             return dict(kwargs)
         if mod == 'hashlib' and name in ('sha256', 'sha1', 'sha512', 'new', 'ripemd160'):
